@@ -4,7 +4,7 @@ from . import common, engine_check
 PID = "C11"
 LIVE = ["Engine_live_stop.cfg", "Engine_live_fault.cfg", "Stateful_live.cfg", "Stateful_live_mf.cfg"]   # FairSpec => <>Done
 DESIGN = {"quick": ["Engine_quick_stop.cfg", "Engine_quick_fault.cfg", "Engine_quick_plan.cfg", "Engine_quick_ctrlc.cfg", "Stateful_quick.cfg", "Stateful_quick_mf.cfg"] + LIVE,
-          "thorough": ["Engine_thorough_stop.cfg", "Engine_thorough_fault.cfg", "Engine_thorough_plan.cfg", "Engine_quick_ctrlc.cfg", "Stateful_thorough.cfg", "Stateful_thorough2.cfg", "Stateful_quick_mf.cfg"] + LIVE}
+          "thorough": ["Engine_thorough_stop.cfg", "Engine_thorough_fault.cfg", "Engine_thorough_plan.cfg", "Engine_thorough_w3.cfg", "Engine_quick_ctrlc.cfg", "Stateful_thorough.cfg", "Stateful_thorough2.cfg", "Stateful_quick_mf.cfg"] + LIVE}
 
 
 def run(ctx):
